@@ -497,11 +497,52 @@ func TestC16(t *testing.T) {
 		}
 		otherPrefix, _ := sdk.Bech32ifyAddressBytes(otherHrp, govBz)
 		long, _ := sdk.Bech32ifyAddressBytes(prefix, append(append([]byte{}, govBz...), make([]byte, 12)...))
+		// valid account addresses of OTHER lengths that contain the governance bytes (a guard that truncates, pads or
+		// takes a window of the decoded bytes — common.BytesToAddress keeps the last 20, a [20]byte copy the first 20 —
+		// identifies them with the governance account); drawn per call, boundary lengths 21 / 32 / maxLen
+		embed := func() cand {
+			rnd := func(n int) []byte { b := make([]byte, n); rng.Read(b); return b }
+			cat := func(xs ...[]byte) []byte {
+				var o []byte
+				for _, x := range xs {
+					o = append(o, x...)
+				}
+				return o
+			}
+			var kind string
+			var bz []byte
+			switch rng.Intn(9) {
+			case 0:
+				kind, bz = "gov-suffix-32-zero-padded", cat(make([]byte, 12), govBz)
+			case 1:
+				kind, bz = "gov-suffix-32", cat(rnd(12), govBz)
+			case 2:
+				kind, bz = "gov-suffix-21", cat(rnd(1), govBz)
+			case 3:
+				kind, bz = "gov-suffix-maxlen", cat(rnd(maxLen-len(govBz)), govBz)
+			case 4:
+				kind, bz = "gov-prefix-21", cat(govBz, rnd(1))
+			case 5:
+				kind, bz = "gov-prefix-32", cat(govBz, rnd(12))
+			case 6:
+				kind, bz = "gov-twice-40", cat(govBz, govBz)
+			case 7:
+				kind, bz = "gov-middle-32", cat(rnd(6), govBz, rnd(6))
+			default:
+				kind, bz = "gov-truncated-19", govBz[1:]
+			}
+			a, err := sdk.Bech32ifyAddressBytes(prefix, bz)
+			if err != nil {
+				return cand{"32-byte", long}
+			}
+			return cand{kind, a}
+		}
+		e1, e2 := embed(), embed()
 		return []cand{
 			{"empty", ""}, {"hex", "0x" + hex.EncodeToString(govBz)}, {"hex-noprefix", hex.EncodeToString(govBz)},
 			{"mixed-case", string(mixed)}, {"long-s", longS}, {"kelvin", kelvin}, {"other-hrp", otherPrefix},
 			{"gov-space", gov + " "}, {"space-gov", " " + gov}, {"module-name", "gov"}, {"gov-nul", gov + "\x00"},
-			{"valoper", sdk.ValAddress(govBz).String()}, {"32-byte", long}, {"spaces", "   "},
+			{"valoper", sdk.ValAddress(govBz).String()}, {"32-byte", long}, {"spaces", "   "}, e1, e2,
 		}
 	}
 	foldEq := func(a, b string) bool { return strings.EqualFold(a, b) && isASCII(a) && isASCII(b) }
@@ -669,7 +710,7 @@ func TestC16(t *testing.T) {
 				cs = append(cs, junk(rng)...)
 			} else {
 				j := junk(rng)
-				cs = append(cs, j[rng.Intn(len(j))], j[rng.Intn(len(j))])
+				cs = append(cs, j[rng.Intn(len(j))], j[rng.Intn(len(j))], j[len(j)-1]) // always one address embedding the governance bytes
 			}
 			for _, c := range cs {
 				setAuthority(m, c.val)
@@ -734,7 +775,7 @@ func TestC16(t *testing.T) {
 				cs = append(cs, junk(rng)...)
 			} else {
 				j := junk(rng)
-				cs = append(cs, j[1], j[rng.Intn(len(j))], j[rng.Intn(len(j))]) // always the 0x spelling of the governance account
+				cs = append(cs, j[1], j[rng.Intn(len(j))], j[rng.Intn(len(j))], j[len(j)-1]) // always the 0x spelling of the governance account and one address embedding its bytes
 			}
 			type target struct {
 				T    string
